@@ -455,7 +455,7 @@ def rule_greedy_disjoint(ctx):
             return ("bin", e[1][1], unchecked(e[1][2]), unchecked(e[1][3]))
         return tuple(unchecked(x) if isinstance(x, tuple) else x for x in e)
 
-    def candidates(e, at, depth=0, stack=()):
+    def candidates(e, at, depth=0, stack=(), fn=fn):
         """values the expression can have at block `at` (reaching definitions of its locals).  A definition of the form
         `x = x + e` (unsigned, checked) only moves x forward: the candidates are those of the other definitions."""
         e = unchecked(strip_casts(e))
@@ -470,7 +470,7 @@ def rule_greedy_disjoint(ctx):
                 if d[0] == "arg" and d[1] == e[1]:
                     out.append(d)
                     continue
-                for c in candidates(d, at, depth + 1, stack + (e[1],)):
+                for c in candidates(d, at, depth + 1, stack + (e[1],), fn):
                     if any(isinstance(x, tuple) and x and x[0] == "self" and x[1] == e[1] for x in walk(c)):
                         c0 = c
                         # x + (something unsigned): monotone, adds no new lower bound
@@ -480,7 +480,7 @@ def rule_greedy_disjoint(ctx):
                     out.append(c)
             return out
         if e[0] == "bin" and e[1] in ("Add", "Sub"):
-            return [("bin", e[1], a_, b_) for a_ in candidates(e[2], at, depth + 1, stack) for b_ in candidates(e[3], at, depth + 1, stack)]
+            return [("bin", e[1], a_, b_) for a_ in candidates(e[2], at, depth + 1, stack, fn) for b_ in candidates(e[3], at, depth + 1, stack, fn)]
         return [e]
     need_contract = False
     for h, x in fwd:
@@ -557,7 +557,15 @@ def rule_greedy_disjoint(ctx):
             ctx.ok(site(f2, bi), "ASCII x ASCII instantiation: forward scan compiled out, `end` comes from prefilter_ascii")
             return
         s_e = strip_casts(f2.expr_of_operand(t["args"][si]))
-        e_e = strip_casts(f2.expr_of_operand(t["args"][ei]))
+        e_e0 = strip_casts(f2.expr_of_operand(t["args"][ei]))
+        if e_e0[0] == "local" and len(f2.defs.get(e_e0[1], [])) > 1:
+            # a local chosen on several paths (`let end = if .. { a } else { b }`): every choice has to satisfy the contract
+            for c_ in candidates(e_e0, bi, fn=f2):
+                check_value(f2, bi, t, s_e, strip_casts(c_), depth)
+            return
+        check_value(f2, bi, t, s_e, e_e0, depth)
+
+    def check_value(f2, bi, t, s_e, e_e, depth):
 
         def at2(x):
             return "S" if repr(strip_casts(x)) == repr(s_e) else None
@@ -598,6 +606,13 @@ def rule_greedy_disjoint(ctx):
     ctx.floor("call sites of fuzzy_match_greedy_", n, 4)
 
 
+def rule_greedy_complete(ctx):
+    """A window that does not contain the needle makes the re-walk report a truncated index list with Some(score):
+    the greedy matcher must have walked needle[1..] itself before it scores (shared with C01.greedy-complete)."""
+    from props.c01 import rule_greedy_complete as r
+    r(ctx)
+
+
 def rules(ctx):
     ctx.run_rule("C02.rewalk-normalized", rule_rewalk_normalized)
     ctx.run_rule("C02.backpointers", rule_backpointers)
@@ -607,3 +622,4 @@ def rules(ctx):
     ctx.run_rule("C02.twins", rule_twins)
     ctx.run_rule("C02.one-per-char", rule_one_per_char)
     ctx.run_rule("C02.greedy-disjoint", rule_greedy_disjoint)
+    ctx.run_rule("C02.greedy-complete", rule_greedy_complete)
